@@ -240,7 +240,17 @@ thread_local! {
     static MEMO: std::cell::RefCell<HashMap<(usize, Vec<char>), Vec<u8>>> = std::cell::RefCell::new(HashMap::new());
 }
 fn memo_hyf(lang: &Liang, wl: &[char]) -> Vec<u8> {
-    MEMO.with(|m| m.borrow_mut().entry((lang as *const Liang as usize, wl.to_vec())).or_insert_with(|| lang.hyf(wl)).clone())
+    // key: the language's address and a fingerprint of its (small) exception list - short-lived
+    // languages of different content can sit at the same address
+    use std::hash::{Hash, Hasher};
+    let mut h = std::collections::hash_map::DefaultHasher::new();
+    (lang as *const Liang as usize).hash(&mut h);
+    lang.patterns.len().hash(&mut h);
+    for e in &lang.exceptions {
+        e.letters.hash(&mut h);
+        e.positions.hash(&mut h);
+    }
+    MEMO.with(|m| m.borrow_mut().entry((h.finish() as usize, wl.to_vec())).or_insert_with(|| lang.hyf(wl)).clone())
 }
 
 fn same_nodes(a: &[TNode], b: &[TNode]) -> bool {
@@ -517,10 +527,13 @@ struct Case {
     /// `\\hyphenation` entries inserted, in this order, into the underlying hyphenate::Hyphenator
     /// (pub field `hyphenator`) before the pass
     exceptions: Vec<String>,
+    /// a text that is typeset and hyphenated by the same hyphenator BEFORE the exceptions are inserted
+    /// (state carried from one pass to the next, e.g. a cache, must not show)
+    warmup: Option<String>,
 }
 impl Case {
     fn json(&self) -> Value {
-        json!({"kind": "list", "program": self.program.iter().map(|r| r.json()).collect::<Vec<_>>(), "program_text": self.program.iter().map(|r| r.compact()).collect::<Vec<_>>(), "text": self.text, "patterns": self.patterns, "lhm": self.lhm, "rhm": self.rhm, "shape": self.shape, "exceptions": self.exceptions})
+        json!({"kind": "list", "program": self.program.iter().map(|r| r.json()).collect::<Vec<_>>(), "program_text": self.program.iter().map(|r| r.compact()).collect::<Vec<_>>(), "text": self.text, "patterns": self.patterns, "lhm": self.lhm, "rhm": self.rhm, "shape": self.shape, "exceptions": self.exceptions, "warmup": self.warmup})
     }
 }
 
@@ -840,6 +853,7 @@ fn main() {
             rhm: case["rhm"].as_i64().unwrap_or(3) as i32,
             shape: case["shape"].as_u64().unwrap_or(0) as u8,
             exceptions: case["exceptions"].as_array().map(|a| a.iter().filter_map(|x| x.as_str().map(String::from)).collect()).unwrap_or_default(),
+            warmup: case["warmup"].as_str().map(String::from),
         };
         let font = synthetic_font(&env, &c.program).expect("program of a replay case compiles");
         let mut hy = real_hyphenator(&env, &font, &c.patterns, c.lhm, c.rhm);
@@ -848,6 +862,10 @@ fn main() {
             "every" => env.every.clone(),
             _ => env.every_ab.clone(),
         };
+        if let Some(w) = &c.warmup {
+            let mut l = typeset(&font, w, 0);
+            let _ = catch(|| hy.hyphenate(&mut l));
+        }
         for e in &c.exceptions {
             hy.hyphenator.insert_exception(e);
             lang.add_exception(e, &ascii_lc);
@@ -899,7 +917,7 @@ fn main() {
             let d = vcore::digits(idx, &[nv, nt, nh]);
             let w = &vocab_r[d[0] as usize];
             let (ps, l, r, hy) = &hys_r[d[2] as usize];
-            let case = Case { program: vec![], text: templates_r[d[1] as usize].replace("{}", w), patterns: ps.clone(), lhm: *l, rhm: *r, shape: 0, exceptions: vec![] };
+            let case = Case { program: vec![], text: templates_r[d[1] as usize].replace("{}", w), patterns: ps.clone(), lhm: *l, rhm: *r, shape: 0, exceptions: vec![], warmup: None };
             if !case.text.is_ascii() {
                 acc.count("text_with_a_non_ascii_character");
             }
@@ -923,7 +941,7 @@ fn main() {
         ctx.family("cmr10-two-words", &format!("cmr10: 'x W1 W2' for every ordered pair of the {nv} words{} x all {nh} (pattern set, minima) settings", if maxlen == 16 { " of at most 16 characters" } else { " of the vocabulary" }), nv * nv * nh, |idx, acc| {
             let d = vcore::digits(idx, &[nv, nv, nh]);
             let (ps, l, r, hy) = &hys_r[sel_r[d[2] as usize]];
-            let case = Case { program: vec![], text: format!("x {} {}", short_r[d[0] as usize], short_r[d[1] as usize]), patterns: ps.clone(), lhm: *l, rhm: *r, shape: 0, exceptions: vec![] };
+            let case = Case { program: vec![], text: format!("x {} {}", short_r[d[0] as usize], short_r[d[1] as usize]), patterns: ps.clone(), lhm: *l, rhm: *r, shape: 0, exceptions: vec![], warmup: None };
             judge(idx, &case, cmr_r, hy, if ps == "plain" { &env_r.plain } else { &env_r.every }, acc);
         });
     }
@@ -957,7 +975,7 @@ fn main() {
         ctx.family("cmr10-two-fonts", &format!("cmr10 registered as font 0 and font 1: 'x W' with each of the {} letter-only words of at most 12 letters switched from font fa to font fb at every split position, (fa,fb) in (0,1),(1,0), or wholly in font 1, followed by nothing | a word in font 0 | (after letters of font 1) a period in font 0 x 6 (pattern set, minima) settings", words.len()), cases.len() as u64, |idx, acc| {
             let (text, h) = &cases_r[idx as usize];
             let (ps, l, r, hy) = &hys_r[*h];
-            let case = Case { program: vec![], text: text.clone(), patterns: ps.clone(), lhm: *l, rhm: *r, shape: 0, exceptions: vec![] };
+            let case = Case { program: vec![], text: text.clone(), patterns: ps.clone(), lhm: *l, rhm: *r, shape: 0, exceptions: vec![], warmup: None };
             if !text.contains("{0}{1}") && !text.contains("{1}{0}") && (text.contains("{0}") && text[3..].contains("{1}")) {
                 acc.count("word_split_by_a_font_change");
             }
@@ -973,7 +991,7 @@ fn main() {
         ctx.family("cmr10-list-shapes", &format!("cmr10: {nw} words x {nt} templates x 6 post-edits of the list (a glue appended | every glue doubled | penalty 0 after every glue | explicit kern 0 after every glue | penalty 10000 + glue appended | font kern 0 after every glue) x all {nh} (pattern set, minima) settings"), nw * nt * ns * nh, |idx, acc| {
             let d = vcore::digits(idx, &[nw, nt, ns, nh]);
             let (ps, l, r, hy) = &hys_r[d[3] as usize];
-            let case = Case { program: vec![], text: templates[d[1] as usize].replace("{}", words[d[0] as usize]), patterns: ps.clone(), lhm: *l, rhm: *r, shape: d[2] as u8 + 1, exceptions: vec![] };
+            let case = Case { program: vec![], text: templates[d[1] as usize].replace("{}", words[d[0] as usize]), patterns: ps.clone(), lhm: *l, rhm: *r, shape: d[2] as u8 + 1, exceptions: vec![], warmup: None };
             acc.count("hand_made_list_shape");
             judge(idx, &case, cmr_r, hy, if ps == "plain" { &env_r.plain } else { &env_r.every }, acc);
         });
@@ -1017,7 +1035,7 @@ fn main() {
             let d = vcore::digits(idx, &[nw, nt, nset]);
             let (li, base, l, r, hy, lang) = &settings_r[d[2] as usize];
             let word = words[d[0] as usize];
-            let case = Case { program: vec![], text: templates[d[1] as usize].replace("{}", word), patterns: base.to_string(), lhm: *l, rhm: *r, shape: 0, exceptions: lists_r[*li].iter().map(|s| s.to_string()).collect() };
+            let case = Case { program: vec![], text: templates[d[1] as usize].replace("{}", word), patterns: base.to_string(), lhm: *l, rhm: *r, shape: 0, exceptions: lists_r[*li].iter().map(|s| s.to_string()).collect(), warmup: None };
             // counters from the case and the model
             let wl: Vec<char> = word.to_ascii_lowercase().chars().collect();
             let base_lang = if *base == "plain" { &env_r.plain } else { &env_r.every };
@@ -1031,6 +1049,31 @@ fn main() {
                 acc.count("exception_redeclared_last_wins");
             }
             judge(idx, &case, cmr_r, hy, lang, acc);
+        });
+    }
+    // ---------------- F2e: pass, insert an exception, pass again - on ONE hyphenator
+    {
+        let spellings = ["office", "Office", "OFFICE"];
+        let entries = ["of-fice", "off-ice"];
+        let bases = ["plain", "every"];
+        let n = (spellings.len() * entries.len() * spellings.len() * bases.len()) as u64;
+        let (env_r, cmr_r) = (&env, &cmr);
+        ctx.family("cmr10-pass-insert-pass", "cmr10: 'x W1' is hyphenated, then one exception entry (of-fice | off-ice) is inserted into the same hyphenator, then 'x W2' is hyphenated and judged, for W1, W2 in office / Office / OFFICE x base patterns (plain TeX, 'every position'), minima (1,1)", n, |idx, acc| {
+            let d = vcore::digits(idx, &[3, 2, 3, 2]);
+            let base = bases[d[3] as usize];
+            let mut hy = real_hyphenator(env_r, cmr_r, base, 1, 1);
+            let mut lang = if base == "plain" { env_r.plain.clone() } else { env_r.every.clone() };
+            let warm = format!("x {}", spellings[d[0] as usize]);
+            let first = Case { program: vec![], text: warm.clone(), patterns: base.to_string(), lhm: 1, rhm: 1, shape: 0, exceptions: vec![], warmup: None };
+            judge(idx, &first, cmr_r, &hy, &lang, acc);
+            hy.hyphenator.insert_exception(entries[d[1] as usize]);
+            lang.add_exception(entries[d[1] as usize], &ascii_lc);
+            let second = Case { program: vec![], text: format!("x {}", spellings[d[2] as usize]), patterns: base.to_string(), lhm: 1, rhm: 1, shape: 0, exceptions: vec![entries[d[1] as usize].to_string()], warmup: Some(warm) };
+            acc.count("list_hyphenated_again_after_insert_exception");
+            if d[0] == d[2] && d[2] != 0 {
+                acc.count("same_capitalised_word_hyphenated_before_and_after_insert_exception");
+            }
+            judge(idx, &second, cmr_r, &hy, &lang, acc);
         });
     }
     // ---------------- F3/F4/F5: synthetic programs
@@ -1112,6 +1155,8 @@ fn main() {
         });
     }
 
+    ctx.require("list_hyphenated_again_after_insert_exception", "one hyphenator hyphenates a list, gets an exception, hyphenates a second list");
+    ctx.require("same_capitalised_word_hyphenated_before_and_after_insert_exception", "the same spelling with capitals is hyphenated before and after an exception for its word is inserted");
     ctx.require("exception_longer_than_longest_pattern", "a word whose exception entry has more letters than the longest pattern plus one is hyphenated in a list");
     ctx.require("exception_redeclared_last_wins", "a word whose exception was declared before with other breaks (plain TeX's entry, or an earlier insert) is hyphenated in a list");
     ctx.require("word_split_by_a_font_change", "a run of letters changes font in the middle (TeX tries only the letters of the first font)");
@@ -1165,7 +1210,7 @@ fn run_synthetic(idx: u64, rules: &[Rule], words: &[String], templates: &[&str],
         let hy = real_hyphenator(env, &font, "every_ab", l, r);
         for w in words {
             for t in templates {
-                let case = Case { program: rules.to_vec(), text: t.replace("{}", w), patterns: "every_ab".into(), lhm: l, rhm: r, shape: 0, exceptions: vec![] };
+                let case = Case { program: rules.to_vec(), text: t.replace("{}", w), patterns: "every_ab".into(), lhm: l, rhm: r, shape: 0, exceptions: vec![], warmup: None };
                 // counters from the case: does a boundary / hyphen rule touch this text?
                 let first = w.as_bytes()[0];
                 let last = *w.as_bytes().last().unwrap();
